@@ -75,8 +75,9 @@ impl AggregationServer {
     let filtered = self.filter_messages(all_messages);
     filtered
       .into_par_iter()
-      .map(|messages| self.recover_measurements(&messages))
-      .map(|output| output.unwrap())
+      // a bucket can hold `threshold` reports but fewer distinct shares
+      // (a replayed report, a share collision): it reveals nothing
+      .filter_map(|messages| self.recover_measurements(&messages).ok())
       .collect()
   }
 
